@@ -1,6 +1,7 @@
 (* C04 — Multi-partition reads are the complete, correctly attributed, time-ordered merge.
    Property theorems only; each is closed by lemmas of proofs/MixerP.v, proofs/IterP.v, proofs/OffsetP.v. *)
 From LR Require Import lib.Base model.Iter model.Mixer model.Offset proofs.MixerP proofs.IterP proofs.OffsetP.
+From LR Require Import gen.Consts.
 From Coq Require Import Permutation Sorting.Sorted.
 Open Scope Z_scope.
 
@@ -114,3 +115,8 @@ Example C04_nonvacuous :
   | None => False
   end.
 Proof. cbv zeta. split; [repeat constructor; cbn; lia|vm_compute; split; reflexivity]. Qed.
+
+(* the merge limit of the model is the limit newCursor passes to GetJournals now (coq/gen/Consts.v is regenerated
+   from /repo on every run) *)
+Example C04_constants : merge_limit = go_cursorMaxSources.
+Proof. reflexivity. Qed.
